@@ -109,6 +109,21 @@ CHECKS["C16"] = dict(
          "unmodified to the line lookup. Does NOT decide the line/column arithmetic inside LexerHelper (value level), e.g. the last line without newline.",
     design="DESIGN.md §6 C16")
 
+CHECKS["C08"] = dict(
+    technique="link-by-link structural verification: action-AST effect paths (label/procedure bound to out.code.len() before any push), abstract interpretation of call/ret (targets unmodified, current+1), MIR dataflow/dominance rules on the driver loop, LR-table adjacency check",
+    text="Decides every link a trace argument needs, for all inputs: labels/procedures bound to the index of the next emitted instruction; one push per action "
+         "path; implied ret; call pushes current+1 and jumps to fn_map[name]; ret jumps to the popped value; driver: idx0 from `start`, hlt appended once before "
+         "the loop, the interpreter gets out.code[idx] and idx, arms JMP/NEXT/PRINT/INT/REPEAT/HALT update idx correctly; all 25 adjacent item-kind pairs parse. "
+         "Does NOT enumerate whole-program traces: their correctness is the composition of these links (argued in DESIGN.md).",
+    design="DESIGN.md §6 C08")
+CHECKS["C14"] = dict(
+    technique="path enumeration over assembler action ASTs (rejecting branch per error class dominates every emission), grammar-shape scan of operand classes, CFG dominance of the driver's three gates, Err-never-reaches-Ok rule in preprocess()",
+    text="Decides: for each error class (jump to data label, duplicate label/procedure, data operand or OFFSET on code/unknown label, call of a non-procedure, "
+         "out-of-range constant, unsupported int/mnemonic) the rejecting path ends in a diagnostic and emits nothing; no production mixes widths or takes two "
+         "memory operands; the preprocess, undefined-label and `start` gates dominate loading and execution and have printing exits. Does NOT decide that "
+         "diagnostic texts are non-empty for every program.",
+    design="DESIGN.md §6 C14")
+
 NOT_YET = {}
 
 
